@@ -648,7 +648,7 @@ def run(ctx):
         for c in diff.load_corpus("C43"):
             if "steps" in c:
                 cases.append(build_case("k" + str(len(cases)), c["steps"], names=c.get("names", NAMES), kind="corpus"))
-        n = 260 if tier == "quick" else 3000
+        n = 260 if tier == "quick" else 2000
         for i in range(n):
             cases.append(build_case("h%d" % i, gen_history(rng, tier)))
     G = 8
